@@ -314,7 +314,9 @@ static std::string replayEvents(const Replay &r) {
     Inst I(k);
     bool ret = I.input(hexDec(r.get("text")));
     std::string got;
-    for (auto &l : I.trace) if (l[0] == 'H' || l[0] == 'V' || l[0] == 'E') got += (got.empty() ? "" : "|") + l;
+    // 'E:-1xx' in the expectation stands for any command error: the statement asks for "a command error (-1xx)" for malformed data
+    bool anyCmdErr = r.get("expect").find("E:-1xx") != std::string::npos;
+    for (auto &l : I.trace) if (l[0] == 'H' || l[0] == 'V' || l[0] == 'E') { std::string x = l; if (anyCmdErr && x.compare(0, 2, "E:") == 0) { int code = atoi(x.c_str() + 2); if (code <= -100 && code >= -199) x = "E:-1xx"; } got += (got.empty() ? "" : "|") + x; }
     if (got != r.get("expect")) return "events '" + got + "', expected '" + r.get("expect") + "' for '" + vis(hexDec(r.get("text"))) + "'";
     if ((int) ret != (int) r.num("ret")) return fmt("SCPI_Input returned %d", (int) ret);
     return "";
